@@ -399,3 +399,48 @@ package cgroup
 //@   assigns G.made, G.rmdir, FC.closed
 //@   callsite (*V1).Processes: assert @C20 c == caller_c
 //@   callsite Cgroup.AddProc: assert @C20 c == v1 && pid == p
+
+// the remaining constructors: Random hands on the caller's pattern and returns only a group this call created;
+// a v2 handle opened on an existing group is marked existing (Destroy never removes it); Open is the group's own directory
+//@ func funcvalue:pkg/cgroup.(*V1).Random.c.New
+//@   assumed "method value c.New handed to randomBuild"
+//@   pure
+//@ func pkg/cgroup.(*V1).Random props C20
+//@   arith int
+//@   requires c != nil
+//@   ensures result.1 == nil ==> result.0 != nil && !cg_existing(result.0)
+//@   callsite randomBuild: assert @C20 pattern == caller_pattern
+//@ func pkg/cgroup.(*V2).Random props C20
+//@   arith int
+//@   requires c != nil
+//@   ensures result.1 == nil ==> result.0 != nil && !cg_existing(result.0)
+//@   callsite randomBuild: assert @C20 pattern == caller_pattern
+//@ func pkg/cgroup.(*Controllers).Set props C20
+//@   arith int
+//@   requires c != nil
+//@   assigns c.CPU, c.CPUSet, c.CPUAcct, c.Memory, c.Pids
+//@ func pkg/cgroup.getAvailableControllerV2path props C20
+//@   arith int
+//@   assigns nothing
+//@   ensures result.1 == nil ==> result.0 != nil && fresh(result.0)
+//@   loop 0: invariant -1 <= rangeindex && rangeindex < len(f) && m != nil && fresh(m)
+//@ func pkg/cgroup.getAvailableControllerV2 props C20
+//@   arith int
+//@   assigns nothing
+//@   ensures result.1 == nil ==> result.0 != nil
+//@ func pkg/cgroup.(*Controllers).Contains props C20
+//@   arith int
+//@   requires c != nil && o != nil
+//@   assigns nothing
+//@ func pkg/cgroup.openExistingV2 props C20
+//@   arith int
+//@   requires ct != nil
+//@   ensures err == nil ==> cg != nil && ref_as(cg, V2) != nil && ref_as(cg, V2).existing
+//@ func pkg/cgroup.(*V2).Open props C20
+//@   arith int
+//@   requires c != nil
+//@   callsite os.OpenFile: assert @C20 name == c.path
+//@ func pkg/cgroup.(*V1).Open props C20
+//@   arith int
+//@   assigns nothing
+//@   ensures result.1 != nil
